@@ -12,15 +12,21 @@ def plan(ex, tier, first):
             T.p_snapshot_before_prune, "snapshot_before_prune", "strace")
     stage = ("staged blob flushed and fdatasync'ed before the rename into cas/",
              T.p_stage_complete_before_rename, "stage_complete_before_rename", "strace")
-    p = [("put.finish", [stage, wal, snap]), ("remove", [wal, snap]), ("checkpoint", [snap])]
+    ack = ("an operation is acknowledged (returns Ok) only after its WAL record was written and fdatasync'ed",
+           T.p_ack_after_wal_sync, "ack_after_wal_sync", "strace")
+    p = [("put.finish", [stage, wal, snap, ack]), ("remove", [wal, snap, ack]), ("checkpoint", [snap])]
     if tier == "thorough" and first:
         p.append(("remove_range", [wal, snap]))
     return p
 
 
 def run(tier, seed, ev):
-    return tcommon.generic_run(PROP, tier, seed, ev, plan, [
+    rc = tcommon.generic_run(PROP, tier, seed, ev, plan, [
         "power-loss model of the property: bytes not covered by a completed fdatasync of their file may be lost, directory "
         "operations persist in issue order; only SyncMode::Sync is claimed",
-        "this check decides the ORDER of write/fdatasync/rename/unlink effects on every path; the image-level statement "
-        "(every cut image recovers to old or old+op) is C03/C20's obligation"])
+        "the ORDER of write/fdatasync/rename/unlink effects on every path, and the image-level statement: at every cut, for every "
+        "choice of files losing their unsynced bytes, the image recovers to old or old+op with intact blobs; acknowledged => old+op"])
+    import mirrun
+    with mirrun.mir_executor(PROP + "i") as (ex, scr, mir_s):
+        rc = tcommon.best(rc, tcommon.crash_image_run(PROP, tier, seed, ev, ex, "power"))
+    return rc
